@@ -83,6 +83,17 @@ pub fn compile(pat: &str, flags: &str, xpath: bool, unopt: bool) -> Result<Regex
     r.map_err(|e| err_value(&e))
 }
 
+thread_local! {
+    /// cut-off notes gathered over the steps of one call (with the tracer on, every traced public call - each
+    /// `next()` of an iterator too - starts from zero, so the notes are collected step by step)
+    static CUT_ACC: std::cell::Cell<u32> = const { std::cell::Cell::new(0) };
+}
+
+fn gather_cut() {
+    let c = regexml::verif_take_cutoffs();
+    CUT_ACC.with(|a| a.set(a.get() | c));
+}
+
 /// Drain an iterator with a hard item cap; afterwards poll 3 more times (must stay None).
 fn drain<T>(
     it: &mut dyn Iterator<Item = T>,
@@ -92,7 +103,9 @@ fn drain<T>(
     let mut out = Vec::new();
     let mut capped = false;
     loop {
-        match it.next() {
+        let item = it.next();
+        gather_cut();
+        match item {
             Some(x) => {
                 out.push(conv(&x));
                 if out.len() > cap {
@@ -109,6 +122,7 @@ fn drain<T>(
             if it.next().is_some() {
                 extra += 1;
             }
+            gather_cut();
         }
     }
     (out, capped, extra)
@@ -122,6 +136,7 @@ pub fn run_call(re: &Regex, call: &Value) -> Value {
     };
     let len = s.chars().count();
     regexml::verif_take_cutoffs();
+    CUT_ACC.with(|a| a.set(0));
     let r = match op {
         "is_match" => guarded(|| json!({"k":"ok","v": re.is_match(&s)})),
         "replace" => {
@@ -133,6 +148,7 @@ pub fn run_call(re: &Regex, call: &Value) -> Value {
         }
         "tokenize" => guarded(|| match re.tokenize(&s) {
             Ok(mut it) => {
+                gather_cut();
                 let (v, capped, extra) = drain(&mut it, 2 * len + 8, |t: &String| string_to_cps(t));
                 json!({"k":"ok","v":v,"capped":capped,"extra":extra})
             }
@@ -140,6 +156,7 @@ pub fn run_call(re: &Regex, call: &Value) -> Value {
         }),
         "analyze" => guarded(|| match re.analyze(&s) {
             Ok(mut it) => {
+                gather_cut();
                 let (v, capped, extra) = drain(&mut it, 2 * len + 8, entry_value);
                 json!({"k":"ok","v":v,"capped":capped,"extra":extra})
             }
@@ -151,7 +168,7 @@ pub fn run_call(re: &Regex, call: &Value) -> Value {
         Ok(v) => v,
         Err(p) => p,
     };
-    let cut = regexml::verif_take_cutoffs();
+    let cut = regexml::verif_take_cutoffs() | CUT_ACC.with(|a| a.replace(0));
     if cut != 0 {
         v["cut"] = json!(cut);
     }
